@@ -24,8 +24,30 @@ import (
 //verif:model context.WithTimeout => verifRWithTimeout
 //verif:model go.etcd.io/etcd/client/v3.WithRequireLeader => verifRRequireLeader
 
-// the request timeout never fires in this harness
+// the request timeout never fires in H15f/H15g; in H15h (verifRDeadlines) the
+// context carries a deadline on the harness clock verifRClock, which a failing
+// Get moves on by the request timeout it ran into
+var (
+	verifRDeadlines bool
+	verifRClock     time.Duration
+)
+
+type verifRCtx struct {
+	context.Context
+	deadline time.Duration
+}
+
+func (c *verifRCtx) Err() error {
+	if verifRClock >= c.deadline {
+		return context.DeadlineExceeded
+	}
+	return c.Context.Err()
+}
+
 func verifRWithTimeout(parent context.Context, d time.Duration) (context.Context, context.CancelFunc) {
+	if verifRDeadlines {
+		return &verifRCtx{Context: parent, deadline: verifRClock + d}, func() {}
+	}
 	return parent, func() {}
 }
 
@@ -54,6 +76,8 @@ type verifREtcd struct {
 	watchers []*verifRWatcher
 	gets     []string // "begin|end" of every Get
 	watches  []string // "begin|end" of every Watch
+	failGets int      // H15h: so many of the next Get attempts run into their request timeout
+	attempts int      // H15h: Get attempts seen
 }
 
 var verifRStore *verifREtcd
@@ -92,6 +116,17 @@ func (f *verifREtcd) Revoke(ctx context.Context, id clientv3.LeaseID) (*clientv3
 func (f *verifREtcd) Get(ctx context.Context, key string, opts ...clientv3.OpOption) (*clientv3.GetResponse, error) {
 	op := clientv3.OpGet(key, opts...)
 	begin, end := string(op.KeyBytes()), string(op.RangeBytes())
+	if verifRDeadlines {
+		// a real client refuses a request whose context has already expired
+		f.attempts++
+		expired := ctx.Err() != nil
+		verifAssert(!expired, "every attempt of the snapshot read is made with a request timeout of its own (a retry is not issued on an already expired context)")
+		if !expired && f.failGets > 0 {
+			f.failGets--
+			verifRTimeOut()
+			return nil, context.DeadlineExceeded
+		}
+	}
 	f.mu.Lock()
 	defer f.mu.Unlock()
 	f.gets = append(f.gets, begin+"|"+end)
